@@ -42,6 +42,8 @@ def _loop_over_steps(fn: ast.AST) -> list[ast.For]:
 
 def run(chk) -> None:
     repo = chk.repo
+    from ._engine import engine_view
+    chk.extra["helpers_inlined"] = engine_view(repo)
     m, fn = repo.func(f"{CL}:_process_add_event_tick")
     tick = param(fn, 0)
     cfg = CFG(fn)
@@ -54,7 +56,7 @@ def run(chk) -> None:
     for c in enq:
         ea = c.args[0] if c.args else None
         ev = kwarg(ea, "event", 0) if isinstance(ea, ast.Call) else None
-        if ev is not None and ast.unparse(ev) == f"{tick}.event":
+        if ev is not None and ast.unparse(expand(ev, c, depth=2)) == f"{tick}.event":
             normal.append(c)
         else:
             waiter.append(c)
@@ -125,31 +127,57 @@ def run(chk) -> None:
     # ---------------------------------------------------------------- R5 UnhandledEvent
     un = [c for c in calls_named(fn, "UnhandledEvent")]
     chk.floor("C02.R5", "UnhandledEvent publications", len(un), 1)
+    witnesses: set[str] = set()
+    ire = f"isinstance({tick}.event, InputRequiredEvent)"
     for c in un:
         st = enclosing_stmt(c)
         for n in cfg.nodes_of(st):
-            facts = facts_at(cfg, n, expand_locals=False)
-            g = {t for t, _l in cfg.guards(n) if t.kind == "test"}
-            need = {("handled", False), (f"isinstance({tick}.event, InputRequiredEvent)", False)}
-            ok = need <= facts
-            extra = [f for f in facts if f not in need and f[0] not in ("True", "False")]
-            chk.ob("C02.R5", "UnhandledEvent is published under (not handled) and (not InputRequiredEvent)", ok, m=m, node=c, fn=fn, instance="unhandled:guards",
+            facts = facts_at(cfg, n, expand_locals=True)
+            raw = facts_at(cfg, n, expand_locals=False)
+            ok_ire = (ire, False) in facts
+            # "nothing accepted the event": negative truthiness of a flag, or of the collections that record accepting steps
+            neg_names = {a for a, pol in facts if not pol and a.isidentifier()}
+            witnesses |= neg_names
+            chk.ob("C02.R5", "UnhandledEvent is published under (nothing accepted the event) and (not InputRequiredEvent)", ok_ire and bool(neg_names), m=m, node=c, fn=fn, instance="unhandled:guards",
                    reason=f"guard facts are {sorted(facts)}")
+            known = {(w, False) for w in neg_names} | {(ire, False)}
+            extra = []
+            for f_ in raw:
+                if f_[0] in ("True", "False"):
+                    continue
+                # a raw guard is accounted for when its expansion only yields witness / IRE atoms
+                try:
+                    ex_atoms = set(atoms(expand(ast.parse(f_[0], mode="eval").body, st, depth=3), f_[1]))
+                except SyntaxError:
+                    ex_atoms = {f_}
+                if not (ex_atoms <= known or {f_} <= known):
+                    extra.append(f_)
             chk.ob("C02.R5", "no further condition suppresses UnhandledEvent", not extra, m=m, node=c, fn=fn, instance="unhandled:only",
                    reason=f"additional conditions on the publication: {sorted(extra)}")
+    # every enqueue is recorded in one of the witnesses, on the same path (flag set True, or the step added to the collection)
+    def records(stmt: ast.AST, w: str) -> bool:
+        if isinstance(stmt, ast.Assign) and len(stmt.targets) == 1 and ast.unparse(stmt.targets[0]) == w and isinstance(stmt.value, ast.Constant) and stmt.value.value is True:
+            return True
+        return any(isinstance(x, ast.Call) and isinstance(x.func, ast.Attribute) and x.func.attr in ("add", "append", "update", "extend") and ast.unparse(x.func.value) == w for x in ast.walk(stmt))
+
     for c in enq:
         blk = enclosing_stmt(c)
-        lst = getattr(parent(blk), "body", None) or []
-        if not any(blk is s for s in lst):
-            lst = getattr(parent(blk), "orelse", [])
-        sets = [s for s in lst if isinstance(s, ast.Assign) and len(s.targets) == 1 and ast.unparse(s.targets[0]) == "handled" and isinstance(s.value, ast.Constant) and s.value.value is True]
-        chk.ob("C02.R5", "`handled = True` accompanies every enqueue (same block)", bool(sets), m=m, node=c, fn=fn, instance=f"handled:{'normal' if c in normal else 'waiter'}",
-               reason="an enqueue path leaves `handled` False: the event would be routed and also reported unhandled")
-    # handled starts False and is never reset
-    assigns = sorted((s for s in walk_shallow(fn) if isinstance(s, ast.Assign) and len(s.targets) == 1 and ast.unparse(s.targets[0]) == "handled"), key=lambda s: s.lineno)
-    vals = [ast.unparse(s.value) for s in assigns]
-    chk.ob("C02.R5", "`handled` is a monotone flag (initialised False, only set True)", vals.count("False") == 1 and all(v in ("True", "False") for v in vals) and assigns and ast.unparse(assigns[0].value) == "False",
-           m=m, node=assigns[0] if assigns else fn, fn=fn, instance="handled:monotone", reason=f"assignments: {vals}")
+        from ..astx import stmt_list_of
+        loc_ = stmt_list_of(blk)
+        lst = loc_[0] if loc_ else []
+        ok = any(records(s_, w) for s_ in lst for w in witnesses)
+        chk.ob("C02.R5", "every enqueue is recorded (flag set / step noted) so that the event is not also reported unhandled", ok, m=m, node=c, fn=fn, instance=f"handled:{'normal' if c in normal else 'waiter'}",
+               reason=f"an enqueue path leaves the witnesses {sorted(witnesses)} untouched: the event would be routed and also reported unhandled")
+    # witnesses start falsy and are never reset
+    for w in sorted(witnesses):
+        inits = [s_ for s_ in ast.walk(fn) if isinstance(s_, (ast.Assign, ast.AnnAssign)) and ast.unparse(s_.targets[0] if isinstance(s_, ast.Assign) else s_.target) == w]
+        vals = [ast.unparse(s_.value) for s_ in inits if s_.value is not None]
+        falsy_inits = [v for v in vals if v in ("False", "set()", "[]", "{}", "list()", "dict()")]
+        others = [v for v in vals if v not in ("True",) and v not in falsy_inits]
+        derived = [v for v in others if all(isinstance(x, (ast.Name, ast.Load, ast.BoolOp, ast.Or, ast.Call)) for x in ast.walk(ast.parse(v, mode="eval").body))]
+        resets = [x for x in ast.walk(fn) if isinstance(x, ast.Call) and isinstance(x.func, ast.Attribute) and x.func.attr in ("clear", "discard", "remove", "pop") and ast.unparse(x.func.value) == w]
+        ok = (len(falsy_inits) == 1 and not others and not resets) or (not falsy_inits and len(vals) == 1 and bool(derived) and not resets)
+        chk.ob("C02.R5", f"`{w}` starts empty/False and is only ever set/added to (monotone)", ok, m=m, node=inits[0] if inits else fn, fn=fn, instance="handled:monotone", reason=f"assignments to {w}: {vals}; resets: {len(resets)}")
 
     # ---------------------------------------------------------------- R3 no drop of step outputs
     m3, fn3 = repo.func(f"{CL}:_process_step_result_tick")
@@ -222,8 +250,18 @@ def run(chk) -> None:
                reason=f"no branch for {missing}")
         chk.ob("C02.R4", f"every dispatched {label} class is a member of the union", not unknown, m=mod, node=fnx, fn=fnx, instance=f"dispatch:{label}:members",
                reason=f"branches for non-members {unknown}")
-        chk.ob("C02.R4", f"the {label} dispatch raises on an unknown class", tail is not None, m=mod, node=fnx, fn=fnx, instance=f"dispatch:{label}:else-raises",
-               reason="no final `else: raise`")
+        # when every isinstance test of the dispatch fails, no normal exit is reachable (else: raise, or a raise after a chain of early returns)
+        cfgd = CFG(fnx)
+        tnodes = [t for t in cfgd.nodes if t.kind == "test" and any(t.ast is n_ for _names, n_ in disp)]
+        falls_through = cfgd.exit in cfgd.reach([cfgd.entry], blocked_edges=[(t, "T") for t in tnodes], labels_excluded=("exc", "cancel")) if label != "results" else None
+        if label == "results":
+            # the result dispatch sits inside the loop over tick.result: the all-false path must not reach the next iteration
+            heads = [n_ for n_ in cfgd.nodes if n_.kind == "iter" and ast.unparse(n_.ast.iter).endswith(".result")]
+            first = min(tnodes, key=lambda t: t.line) if tnodes else None
+            r_ = cfgd.reach([first], blocked_edges=[(t, "T") for t in tnodes], labels_excluded=("exc", "cancel")) if first is not None else set()
+            falls_through = any(h in r_ for h in heads) or cfgd.exit in r_
+        chk.ob("C02.R4", f"the {label} dispatch raises on an unknown class", bool(tnodes) and not falls_through, m=mod, node=fnx, fn=fnx, instance=f"dispatch:{label}:else-raises",
+               reason="a value of an unknown class falls through the dispatch silently")
     chk.floor("C02.R4", "tick union members", len(union_members(repo, TICKS, "WorkflowTick")), 8)
 
     # ---------------------------------------------------------------- R6 senders
